@@ -88,6 +88,13 @@ func (k *KVStore) isTableExpired(recycledAt int64) bool {
 
 func (k *KVStore) isCompactionOK(t *table.Table) bool {
 	s := t.Stats()
+	// A sealed table whose entries have all been superseded or deleted holds nothing
+	// but garbage. It is reclaimed whatever share of its allocation that garbage is:
+	// a table that was sealed while mostly empty (the next entry was too large for it)
+	// never reaches the ratio and would stay allocated forever.
+	if t.State() == table.ReadOnlyState && s.Inuse == 0 && s.Garbage > 0 {
+		return true
+	}
 	return float64(s.Garbage) >= float64(s.Allocated)*maxGarbageRatio
 }
 
